@@ -35,19 +35,24 @@ Definition lenZ (l : list Z) : Z := Z.of_nat (length l).
 
 (** * Row routines *)
 
+(** `x as BigDigit` and `x >> big_digit::BITS` on a u128 *)
+Definition mask64 : Z := 18446744073709551615.
+Definition lo64 (s : Z) : Z := Z.land s mask64.
+Definition hi64 (s : Z) : Z := Z.shiftr s 64.
+
 (** `mac_with_carry(a, b, c, &mut acc) -> lo`; returns (lo, new acc).  u128 arithmetic. *)
 Definition mac_with_carry (a b c acc : Z) : outcome (Z * Z) :=
   let s1 := acc + a in
   do _ <- assert_ (s1 <? BB) (Internal 201);
   let s2 := s1 + b * c in
   do _ <- assert_ (s2 <? BB) (Internal 202);
-  Ret (s2 mod B, s2 / B).
+  Ret (lo64 s2, hi64 s2).
 
 (** `mul_with_carry(a, b, &mut acc) -> lo` *)
 Definition mul_with_carry (a b acc : Z) : outcome (Z * Z) :=
   let s := acc + a * b in
   do _ <- assert_ (s <? BB) (Internal 217);
-  Ret (s mod B, s / B).
+  Ret (lo64 s, hi64 s).
 
 (** the zip loop of mac_digit: each a_lo digit becomes mac_with_carry(a, b, c, carry) *)
 Fixpoint mac_loop (c carry : Z) (a b : list Z) : outcome (list Z * Z) :=
@@ -70,8 +75,8 @@ Definition mac_digit (p : mul_params) (acc b : list Z) (c : Z) : outcome (list Z
     let a_hi := skipn n acc in
     do r <- mac_loop c 0 a_lo b;
     let '(lo, carry) := r in
-    let carry_hi := carry / B in
-    let carry_lo := carry mod B in
+    let carry_hi := hi64 carry in     (* big_digit::from_doublebigdigit *)
+    let carry_lo := lo64 carry in
     do r2 <- (if carry_hi =? 0 then add2c (mp_as p) a_hi [carry_lo]
               else add2c (mp_as p) a_hi [carry_hi; carry_lo]);
     let '(hi, final_carry) := r2 in
@@ -194,7 +199,7 @@ Definition scalar_mul (a : list Z) (b : Z) : outcome (list Z) :=
   else
     do r <- mul_loop b 0 a;
     let '(a', carry) := r in
-    Ret (if carry =? 0 then a' else a' ++ [carry mod B]).
+    Ret (if carry =? 0 then a' else a' ++ [lo64 carry]).
 
 Definition mul3_with (m3 : mrec) (p : mul_params) (x y : list Z) : outcome (list Z) :=
   let len := Z.to_nat (lenZ x + lenZ y + mp_prod_extra p) in
